@@ -48,7 +48,7 @@ def plan(tier, seed):
 
 
 def mandatory(tier):
-    return [f"mode/{m}" for m in FD_MODES + ["bspline"]] + [f"spacing/{s}" for s in SPACING_FORMS] + ["D/2", "D/3", "subset", "quadratic", "bracket", "curl", "curl/divergence_free_flow", "curl/divergence_free_flow/scalar_fields", "curl/module"]
+    return [f"mode/{m}" for m in FD_MODES + ["bspline"]] + [f"spacing/{s}" for s in SPACING_FORMS] + ["D/2", "D/3", "subset", "quadratic", "bracket", "curl", "curl/divergence_free_flow", "curl/divergence_free_flow/scalar_fields", "curl/module", "curl/data_classes"]
 
 
 def interior(a, m=2):
@@ -218,6 +218,40 @@ def run_item(ctx, item):
             ctx.close("shorthand_equals_full_request", sh[key], full[key], 1e-12 * (1 + np.abs(q_np).max()), key="derivs/subset", entry=key, **info)
         o2 = U.flow_derivatives(q, which=all_keys, order=2, mode=mode, spacing=arg)
         ctx.true("order_filter", all(len(k.split("/d")[1]) == 2 for k in o2) and len(o2) == D * D * D, key="derivs/keys", got=list(o2.keys()), **info)
+    # ---- data classes: FlowFields.curl() / FlowField.curl() of a world-affine field held in each vector representation
+    #      on an axis-aligned anisotropic grid; the default spacing is the sample distance in units of the representation,
+    #      so the result is the curl of S A S^-1 with S the (diagonal) world -> representation vector scaling
+    with ctx.guard("FlowFields.curl", key="exc/FlowFields.curl", shape=list(shape)):
+        from deepali.core.grid import Axes, Grid
+        from deepali.data.flow import FlowField, FlowFields
+        from deepali.data.image import ImageBatch
+        from .. import gen
+        from ..oracle.ramp import world_positions
+
+        ctx.bucket("curl/data_classes")
+        gac = bool(i % 2)
+        grid = Grid(shape=shape, spacing=tuple(float(q) for q in gen.f32(h[0])), align_corners=gac)
+        rg = gen.ref_of_grid(grid)
+        w = world_positions(rg)
+        uw = np.stack([np.moveaxis(w @ A[n].T + t[n], -1, 0) for n in range(N)])
+        for a in ("world", "grid", "cube", "cube_corners"):
+            sa = np.diag(rg.vectors(np.eye(D), "world", a))
+            ua = uw * sa.reshape((1, D) + (1,) * D)
+            ff = FlowFields(torch.tensor(ua, dtype=torch.float32), grid, Axes(a))
+            for mode in ("central", "forward_central_backward"):
+                m = 0 if mode == "forward_central_backward" else 2
+                res = ff.curl(mode=mode)
+                B = sa[None, :, None] * A / sa[None, None, :]
+                if D == 2:
+                    ref = (B[:, 1, 0] - B[:, 0, 1]).reshape((N, 1, 1, 1))
+                else:
+                    ref = np.stack([B[:, 2, 1] - B[:, 1, 2], B[:, 0, 2] - B[:, 2, 0], B[:, 1, 0] - B[:, 0, 1]], axis=1).reshape((N, 3, 1, 1, 1))
+                ok = ctx.true("flowfields_curl_is_image_batch_on_same_grid", isinstance(res, ImageBatch) and res.grid() == grid and tuple(res.shape[2:]) == shape, key="curl/data_classes/type", axes=a, got=type(res).__name__)
+                if ok:
+                    got = interior(res.tensor().numpy(), m)
+                    ctx.close("flowfields_curl_of_affine_field", got, np.broadcast_to(ref, got.shape), tol * 2 * float(np.abs(B).max() / scale + 1), key=f"curl/data_classes/{a}", mode=mode, align_corners=gac, shape=list(shape))
+            one = FlowField(torch.tensor(ua[0], dtype=torch.float32), grid, Axes(a)).curl(mode="central")
+            ctx.close("flowfield_curl_equals_batch_item", one.tensor(), ff.curl(mode="central").tensor()[0], 1e-6 * (1 + float(np.abs(ua).max())), key=f"curl/data_classes/{a}", single=True)
     # ---- bspline mode: analytic derivatives of the cubic B-spline with the field as coefficients
     ctx.bucket("mode/bspline")
     stride = tuple(int(rng.integers(1, 4)) for _ in range(D))
